@@ -255,6 +255,32 @@ func (c *Ctx) ReconcilerShape(ob *core.Obligation, r *Roles) {
 			}
 		}
 	}
+	// lists popped in line: an element read at len-1 (or at 0) of a pending list
+	for _, b := range fn.Blocks {
+		for _, in := range b.Instrs {
+			ia, ok := in.(*ssa.IndexAddr)
+			if !ok {
+				continue
+			}
+			en := elemTypeName(ia.X.Type())
+			if en != "Sender" && en != "Receiver" {
+				continue
+			}
+			end := "other"
+			t, off := core.Linear(ia.Index)
+			switch {
+			case t == "len("+core.Canon(ia.X)+")" && off == -1:
+				end = "inline:last"
+			case t == "0" && off == 0:
+				end = "inline:first"
+			}
+			if en == "Sender" {
+				popS[end] = true
+			} else {
+				popR[end] = true
+			}
+		}
+	}
 	key := "reconciler:ends"
 	same := len(popS) == len(popR)
 	for k := range popS {
@@ -344,17 +370,26 @@ func (c *Ctx) ResetBeforePush(ob *core.Obligation, r *Roles, dispatcher *ssa.Fun
 		return
 	}
 	c.Touch(dispatcher)
+	resetHelpers := map[*ssa.Function]bool{}
 	for _, item := range []struct {
 		f    *types.Var
 		push *ssa.Function
 		name string
 	}{{r.SendersF, r.PushSender.Fn, "Senders"}, {r.ReceiversF, r.PushReceiver.Fn, "Receivers"}} {
 		key := "reset:" + item.name
-		var resets []*ssa.Store
+		var resets []ssa.Instruction
 		for _, b := range dispatcher.Blocks {
 			for _, in := range b.Instrs {
 				if st, ok := in.(*ssa.Store); ok && core.FieldOf(st.Addr) == item.f && core.IsNilConst(st.Val) {
 					resets = append(resets, st)
+				}
+				// or a helper that resets the list on every path through it
+				if call, ok := in.(*ssa.Call); ok {
+					if sc := call.Call.StaticCallee(); sc != nil && resetsAlways(sc, item.f) {
+						resets = append(resets, call)
+						resetHelpers[sc] = true
+						c.Touch(sc)
+					}
 				}
 			}
 		}
@@ -384,6 +419,9 @@ func (c *Ctx) ResetBeforePush(ob *core.Obligation, r *Roles, dispatcher *ssa.Fun
 								dom = true
 							}
 						}
+						if st == in {
+							dom = true // the reset helper itself
+						}
 					} else if st.Block().Dominates(b) {
 						dom = true
 					}
@@ -407,7 +445,7 @@ func (c *Ctx) ResetBeforePush(ob *core.Obligation, r *Roles, dispatcher *ssa.Fun
 	}{{r.SendersF, r.PushSender.Fn, "Senders"}, {r.ReceiversF, r.PushReceiver.Fn, "Receivers"}} {
 		for _, fs := range c.fieldStores(item.f) {
 			key := "writers:" + item.name + ":" + core.SSAName(fs.Fn)
-			if fs.Fn == item.push || (fs.Fn == dispatcher && core.IsNilConst(fs.St.Val)) {
+			if fs.Fn == item.push || ((fs.Fn == dispatcher || resetHelpers[fs.Fn]) && core.IsNilConst(fs.St.Val)) {
 				ob.Pass(key, c.P.Pos(fs.St.Pos()), "owned write")
 			} else {
 				ob.Fail(key, c.P.Pos(fs.St.Pos()), "the pending "+item.name+" list is written outside its push function and the per-statement reset")
@@ -481,4 +519,26 @@ func (c *Ctx) KeptOnlyForKept(ob *core.Obligation, r *Roles, kept string) {
 	if n == 0 {
 		ob.Unknown("kept-push:none", "-", "no receiver push found")
 	}
+}
+
+// resetsAlways: every path through fn stores nil into the field, and fn stores nothing else
+// into it.
+func resetsAlways(fn *ssa.Function, f *types.Var) bool {
+	if len(fn.Blocks) == 0 {
+		return false
+	}
+	found := false
+	for _, b := range fn.Blocks {
+		for _, in := range b.Instrs {
+			if st, ok := in.(*ssa.Store); ok && core.FieldOf(st.Addr) == f {
+				if !core.IsNilConst(st.Val) {
+					return false
+				}
+				if blockOnEveryPath(fn, b) {
+					found = true
+				}
+			}
+		}
+	}
+	return found
 }
